@@ -124,14 +124,15 @@ def ubUnify (F : Nat) (bindFn : Ctx → Nat → Nat → M Ctx) (c : Ctx) (x y : 
   | .root xd, .root yd =>
     -- `x_elem.data.unwrap_root().ptr_eq(y_elem.data.unwrap_root())`
     if xd = yd then .ok c
+    -- union by rank: the root of larger rank is kept (`mem::swap` when `x` has the smaller rank;
+    -- equal ranks: `x` is kept and its rank bumped); then
+    -- `mem::replace(&mut y_elem.data, UbData::EqualTo(x_root))` and the bind closure
+    else if xElem.rank < yElem.rank then
+      bindFn (setData c xRoot (.equalTo yRoot)) yd xd
+    else if xElem.rank = yElem.rank then
+      bindFn (setData (bumpRank c xRoot) yRoot (.equalTo xRoot)) xd yd
     else
-      -- union by rank: the root of larger rank is kept; equal ranks: `x` is kept and bumped
-      let (c, xRoot, yRoot, xData, yData) :=
-        if xElem.rank < yElem.rank then (c, yRoot, xRoot, yd, xd)
-        else if xElem.rank = yElem.rank then (bumpRank c xRoot, xRoot, yRoot, xd, yd)
-        else (c, xRoot, yRoot, xd, yd)
-      -- `mem::replace(&mut y_elem.data, UbData::EqualTo(x_root))`, then the bind closure
-      bindFn (setData c yRoot (.equalTo xRoot)) xData yData
+      bindFn (setData c yRoot (.equalTo xRoot)) xd yd
   | _, _ => .error .panic
 
 /-- `ContextInner::reassign_non_complete` -/
@@ -154,6 +155,36 @@ def completePairData (F : Nat) (c : Ctx) (i1 i2 : Nat) : M (Ctx × Option (Ty ×
   | _, .error e => .error e
   | .ok (.complete d1), .ok (.complete d2) => .ok (c, some (d1, d2))
   | .ok _, .ok _ => .ok (c, none)
+
+/-- the arm `(Complete(c), incomplete) | (incomplete, Complete(c))` of `bind` when the constructors
+agree: both roots first, then the two recursive `bind`s with the components of the complete type -/
+def bindComponents (F : Nat) (bindF : Ctx → Nat → Bound → M Ctx) (c : Ctx) (ty1 ty2 : Nat)
+    (comp1 comp2 : Ty) : M Ctx :=
+  match rootRef F c ty1 with
+  | .error e => .error e
+  | .ok (c, bound1) =>
+  match rootRef F c ty2 with
+  | .error e => .error e
+  | .ok (c, bound2) =>
+  match bindF c bound1 (.complete comp1) with
+  | .error e => .error e
+  | .ok c => bindF c bound2 (.complete comp2)
+
+/-- the arm `(Sum, Sum) | (Product, Product)` of `bind`: unify the components, then complete the
+existing bound eagerly when both components of the new one are complete (`mk` = `Final::sum` or
+`Final::product`) -/
+def bindPairwise (F : Nat) (unifyF : Ctx → Nat → Nat → M Ctx) (c : Ctx) (existing x1 x2 y1 y2 : Nat)
+    (mk : Ty → Ty → Ty) : M Ctx :=
+  match unifyF c x1 y1 with
+  | .error e => .error e
+  | .ok c =>
+  match unifyF c x2 y2 with
+  | .error e => .error e
+  | .ok c =>
+  match completePairData F c y1 y2 with
+  | .error e => .error e
+  | .ok (c, some (d1, d2)) => reassignNonComplete c existing (.complete (mk d1 d2))
+  | .ok (c, none) => .ok c
 
 /-- `WithGhostToken<ContextInner>::bind` with `unify` inlined as the closure it is in the code
 (`existing.bound.unify(self, &other.bound, |self_, x, y| self_.bind(x, self_.slab[y].clone()))`).
@@ -178,53 +209,15 @@ def bind (F : Nat) : Nat → Ctx → Nat → Bound → M Ctx
     -- incomplete against complete: recursion on the two components
     | .complete comp, .sum ty1 ty2 | .sum ty1 ty2, .complete comp =>
       match comp with
-      | .sum comp1 comp2 =>
-        match rootRef F c ty1 with
-        | .error e => .error e
-        | .ok (c, bound1) =>
-        match rootRef F c ty2 with
-        | .error e => .error e
-        | .ok (c, bound2) =>
-        match bind F f c bound1 (.complete comp1) with
-        | .error e => .error e
-        | .ok c => bind F f c bound2 (.complete comp2)
+      | .sum comp1 comp2 => bindComponents F (bind F f) c ty1 ty2 comp1 comp2
       | _ => .error .bind
     | .complete comp, .product ty1 ty2 | .product ty1 ty2, .complete comp =>
       match comp with
-      | .prod comp1 comp2 =>
-        match rootRef F c ty1 with
-        | .error e => .error e
-        | .ok (c, bound1) =>
-        match rootRef F c ty2 with
-        | .error e => .error e
-        | .ok (c, bound2) =>
-        match bind F f c bound1 (.complete comp1) with
-        | .error e => .error e
-        | .ok c => bind F f c bound2 (.complete comp2)
+      | .prod comp1 comp2 => bindComponents F (bind F f) c ty1 ty2 comp1 comp2
       | _ => .error .bind
-    | .sum x1 x2, .sum y1 y2 =>
-      match unify c x1 y1 with
-      | .error e => .error e
-      | .ok c =>
-      match unify c x2 y2 with
-      | .error e => .error e
-      | .ok c =>
-      -- eager completion
-      match completePairData F c y1 y2 with
-      | .error e => .error e
-      | .ok (c, some (d1, d2)) => reassignNonComplete c existing (.complete (.sum d1 d2))
-      | .ok (c, none) => .ok c
-    | .product x1 x2, .product y1 y2 =>
-      match unify c x1 y1 with
-      | .error e => .error e
-      | .ok c =>
-      match unify c x2 y2 with
-      | .error e => .error e
-      | .ok c =>
-      match completePairData F c y1 y2 with
-      | .error e => .error e
-      | .ok (c, some (d1, d2)) => reassignNonComplete c existing (.complete (.prod d1 d2))
-      | .ok (c, none) => .ok c
+    -- eager completion inside
+    | .sum x1 x2, .sum y1 y2 => bindPairwise F unify c existing x1 x2 y1 y2 .sum
+    | .product x1 x2, .product y1 y2 => bindPairwise F unify c existing x1 x2 y1 y2 .prod
     | _, _ => .error .bind
 
 /-- the closure `|self_, x_bound, y_bound| self_.bind(x_bound, self_.slab[y_bound.index].clone())` -/
@@ -362,5 +355,34 @@ def typeFinalize (F : Nat) (c : Ctx) (ty : Nat) : M (Ctx × Ty) :=
     match occursCheck F c root with
     | .error e => .error e
     | .ok c => finalizeRec F F c root
+
+/-! ### the calls a node constructor makes -/
+
+/-- one call into `types::Context` / `types::Type`.  Allocating operations return the next element
+index (`Ctx.elems.size` before the call), so a constructor that starts at element count `k` knows
+the indices of everything it allocates. -/
+inductive Op
+  | free                          -- `Type::free`
+  | complete (t : Ty)             -- `Type::unit`, `Type::two_two_n`, `Type::complete`
+  | sum (a b : Nat)               -- `Type::sum`
+  | product (a b : Nat)           -- `Type::product`
+  | unify (a b : Nat)             -- `Context::unify`
+  | bindProduct (e a b : Nat)     -- `Context::bind_product`
+deriving Repr, DecidableEq
+
+def step (F : Nat) (c : Ctx) : Op → M Ctx
+  | .free => .ok (typeFree c).1
+  | .complete t => .ok (typeComplete c t).1
+  | .sum a b => match typeSum F c a b with | .ok (c, _) => .ok c | .error e => .error e
+  | .product a b => match typeProduct F c a b with | .ok (c, _) => .ok c | .error e => .error e
+  | .unify a b => unify F F c a b
+  | .bindProduct e a b => bindProduct F F c e a b
+
+def runOps (F : Nat) : Ctx → List Op → M Ctx
+  | c, [] => .ok c
+  | c, op :: ops => match step F c op with
+    | .error e => .error e
+    | .ok c => runOps F c ops
+
 
 end UB
